@@ -97,6 +97,21 @@ def run(prop, repo_root, seed, evidence_dir=None):
                     continue
                 jobs.append(('neutral', 'refactoring:' + name, dst, 1))
 
+        # ---- inline-method variants: every private function that the exact inliner can inline into its callers (sa/inline_variants.py)
+        from sa import inline_variants as iv
+        for hname in iv.candidates(repo_root):
+            if hname in iv.TEST_PINNED:
+                continue
+            dst = os.path.join(base, 'i-' + hname)
+            try:
+                sites, why = iv.make_variant(repo_root, hname, dst)
+            except Exception as ex:
+                results['skipped'].append({'variant': 'inline:' + hname, 'why': 'inliner failed: %s' % ex})
+                continue
+            if not sites:
+                continue
+            jobs.append(('neutral', 'inline:' + hname, dst, len(sites)))
+
         def job(j):
             kind, name, dst, changed = j
             r = subprocess.run([sys.executable, os.path.join(VERIF, 'sa', 'check.py'), prop, '--repo', dst, '--tier', 'quick',
@@ -114,7 +129,9 @@ def run(prop, repo_root, seed, evidence_dir=None):
     finally:
         shutil.rmtree(base, ignore_errors=True)
     missed = [b for b in results['breaking'] if b['rc'] != 1]
-    noisy = [n for n in results['neutral'] if n['rc'] != 0]
+    from sa import inline_variants as _iv
+    # a listed inline variant may end in "shape not modelled" (exit 2); it must never produce a violation
+    noisy = [n for n in results['neutral'] if n['rc'] != 0 and not (n['rc'] == 2 and n['variant'].startswith('inline:') and n['variant'][7:] in _iv.UNMODELLED)]
     # merge into the evidence file written by the quick pass
     ev_path = os.path.join(ev_dir, '%s.json' % prop)
     ev = json.load(open(ev_path))
